@@ -6,7 +6,9 @@ _m(
     "Hypothesis draws three kinds of case.  (com) scan (a,b) in [2..6]^2 x detector (H,W) in [3..12]^2 (non-square in "
     "7 of 8 draws) x strictly positive pattern family (uniform noise | off-centre Gaussian blob | Poisson counts in "
     "uint16/int32/float | one bright pixel on a uniform background whose integer position is a plane/constant over the "
-    "scan, which makes the exact centre of mass a plane/constant) x dtype x scale {1e-3,1,1e4} x 1-3 batch sizes in "
+    "scan, which makes the exact centre of mass a plane/constant) x dtype x GLOBAL INTENSITY SCALE 10^u, u in -9..9 "
+    "(applied in float64 before the cast; all values stay normal float32; also on the data versions of the histories "
+    "and the shift cases; 2^k, k in -30..30, exact, on the large datasets) x 1-3 batch sizes in "
     "1..a*b (plus the default) x optional detector mask (binary keep-fraction {0.9,0.5,0.1,0} or soft multiples of 1/8, "
     "always >= 1 live pixel) x fit in {plane, constant}; both models and both code paths are run on every case.  (fit) "
     "same geometry x method {plane, constant} x real plane coefficients built so every origin stays inside the detector "
@@ -17,13 +19,15 @@ _m(
     "nested list} x layout {(N,2), (a,b,2)} - a plane/constant over the scan indices is the same plane/constant over "
     "such positions, so the expected fitted origins are unchanged.  "
     "(shift) same geometry x uniform/blob patterns x integer origins in [0,H-1]x[0,W-1] per pattern (or one for all) x "
-    "batch size None|1..a*b x mode {bilinear, nearest, bicubic}; in addition EVERY detector side length 2..128 (thorough: "
+    "batch size None|1..a*b x mode {bilinear, nearest, bicubic} x target coordinate (the corner, or in a third of the "
+    "draws another integer pixel: expected = the circular roll that moves the integer origin onto that pixel); in addition EVERY detector side length 2..128 (thorough: "
     "2..600) x every mode is enumerated (not sampled): that side on a drawn axis, the other side 2..6, scan 1x2 or 2x2, "
     "origins over the full range with the first pattern's origin along the long axis in {side-1, 1, side//2}.  (ohist) a "
     "HISTORY on one CenterOfMassOriginModel over 2-3 data versions of one geometry: [drawn ops] measure [ops] tensor-setter "
     "[ops] measure [drawn ops], ops drawn from measure(batch) / tensor setter (torch or numpy) / origin_measured setter "
     "(exact plane or constant) / origin_fitted setter (integer origins) / shifted_tensor setter / device setter / fit / "
-    "shift(batch, mode); every measurement is judged against the oracle of the data the model holds at that moment, every "
+    "shift(batch, mode, target coordinate corner|other integer pixel) / forward(batch, fit method, shift on|off, target "
+    "coordinate, mode; orientation estimate off); every measurement is judged against the oracle of the data the model holds at that moment, every "
     "fit of exactly planar measured origins against that surface, every integer-origin shift against the roll of the "
     "current data.  (dhist) a HISTORY on one PtychographyDatasetRaster: _set_intensities_com (stored intensities_4d or an "
     "explicit array, vectorised or looped, drawn mask, fit) and preprocess() (orientation forced in 3 of 4) interleaved "
@@ -49,6 +53,12 @@ _m(
         "large datasets (bigcom): tolerance 1e-3 + 2e-6 * longest detector side px (results are stored in float32: "
         "measured 1.5e-7 * side over detectors up to 256 px); the oracle accumulates the stored float32 values in "
         "float64 (np.sum(dtype=float64)) without a float64 copy",
+        "intensity scale: tolerances are in pixels / relative to the pattern maximum and do not depend on the scale "
+        "(the centre of mass and the roll are scale invariant; measured clean-tree max 7.3e-6 px over 12 000 com cases "
+        "with scales 1e-9..1e9)",
+        "a shift to a target pixel other than the corner is judged by the same roll law (origin moves onto the target; "
+        "integer origins and integer targets only, so the law is exact): this is the documented origin_coordinate "
+        "argument, a generalisation of the statement's corner case by the same mechanism",
         "fits: 1e-3 px for the float32 PCA plane / mean and for float32 data through fit_origin (measured max 1.1e-5 in random search, 2.1e-5 on the steepest admissible planes), "
         "1e-6 px for float64 data through fit_origin (measured max 2.5e-9); surfaces are restricted to origins inside "
         "the detector (an origin is a detector coordinate), so plane slopes are bounded by (L-1)/(n-1)",
